@@ -125,7 +125,6 @@ CLAIMED.update({
 
 NOT_APPLICABLE = {
     "C07": "relational equality of the behaviour of four declaration styles implemented in four modules; no clause is visible in the shape of any one code path, and the only structural candidate (prefixing consistency in _move_parser_actions) is a lint whose violation need not change behaviour (DESIGN.md section 3 / C07)",
-    "C13": "soundness of the library's own static parameter resolver over all user programs; decided per program only against the interpreter (an execution oracle); the single wiring clause is too thin to count as deciding anything (DESIGN.md section 3 / C13)",
 }
 
 PENDING = "check not built yet in this session (planned in DESIGN.md section 3); listed here until its rules exist so that nothing is claimed without a deciding check"
@@ -139,6 +138,15 @@ CLAIMED.update({
         "Narrow: decides six structural necessary conditions of the selection rule as written in get_subcommands / handle_subcommands / _ActionSubCommands.__call__: the chosen name is stored; the explicit key wins and the fallback (first declared subcommand with a section) is on its else-side; every other candidate's section is deleted unconditionally through the level's prefix; the descent into nested levels is unconditional for sub-parsers with subcommands and extends the prefix; the section is completed with the chosen sub-parser's environment/defaults with given values winning; an undeterminable required subcommand or an unknown name raises. Not decided: the resulting namespace for all subcommand trees and input mixes, default config files, the environment branch of _load_env_vars.",
         "Trusted: argparse passes (name, rest) as values[0], values[1:]; merge_config(cfg_from, cfg_to) lets cfg_from win (decided under C04). First listed as not applicable; revised after seeded changes showed that the clauses are visible in the code's shape (DESIGN.md section 3 / C17).",
         "DESIGN.md section 3 / C17",
+    ),
+})
+
+CLAIMED.update({
+    "C13": (
+        "syntax-directed rules and CFG must-pass-through queries over the library's own parameter resolver (jsonargparse/_parameter_resolvers.py; static, ast); constructs identified by role (callee names, kinds, slice bounds), not by position or local names",
+        "Narrow: decides structural necessary conditions of the property inside the resolver - hard-coded arguments of a forwarding call are removed on every path (by position, without starred arguments, and by keyword, without the ** entry) and names removed by keyword are filtered after grouping; only POSITIONAL_ONLY parameters replace *args and only KEYWORD_ONLY / POSITIONAL_OR_KEYWORD ones replace **kwargs; the var slot is cut out exactly ([:i] + new + [i + 1:]), only when it exists, with the kwargs index moved by len(args) - 1; names already present are not offered twice; name / annotation / default / kind of a resolved parameter come from one inspect.Parameter, self is dropped only for methods and before the slot indexes are taken; kwargs.pop/get recognition (receiver, method set, constant name, default, kind); MRO index arithmetic of super() handling (search from idx, record idx + offset, continue at idx + 1 with the absolute counter, record before recursing, skip inherited methods); the resolver chain falls through on any exception, stops at the first non-None answer, source before stubs before assumptions; polarity of constant-folded if tests; complementarity of the conditional-parameter tests. Not decided: that the recognised AST patterns cover every way a user program forwards **kwargs (the property's quantifier over programs), the stub / pydantic / attrs resolvers, postponed annotations, the consumer side in _signatures.py.",
+        "First listed as not applicable; revised: the resolver is itself a syntax-directed analysis whose bookkeeping (index arithmetic, filters, fall-through order) is visible in its shape, and each clause is a necessary condition whose violation changes the offered parameter set for some program (DESIGN.md section 3 / C13, revised in section 8.7).",
+        "DESIGN.md section 8.7 / C13",
     ),
 })
 
